@@ -53,6 +53,10 @@ CHECKS = {
         technique="deterministic simulation: the simulator owns every map enumeration in the library (AST-inserted seam); the same call is run from identical states under sorted, reversed and tape-drawn orders and the outcomes compared (metamorphic, no model)",
         text="Each case generates the arguments of one call - NewFrom or Merge on trees whose dictionaries are spelled nested, dotted, partly each, with lists as dotted index keys and (when it is not a known finding) one setting defined twice; or Unpack / FlattenedKeys / CompareConfigs / NewFrom on configs whose settings reference each other through generated expressions, Env configs and resolvers, with at most one failing setting when error kinds are compared - and executes it K=6 (thorough 24) times from identical initial states (the setup is rebuilt under the canonical order) under different enumeration schedules decided at all rewritten range-over-map and MapKeys sites. All outcomes must agree: success vs failure, kind of error (root reason), canonical resulting data, shape of the resulting internal graph.",
         note="Known finding O21 (an Unpack whose result depends on order when a cycle is absorbed, via the per-call value cache) is not generated while it reproduces. Third-party decoders iterate document order, not maps, and are outside."),
+    "C11": dict(engine="E5-conc", design="6 (C11), 5 (E5), 4.3", cat="exploration",
+        technique="deterministic simulation of reader interleavings: tasks parked at instrumented function entries and released one at a time by a tape-driven scheduler inside a testing/synctest bubble (quiescence detection), plus a free-running pass under the Go race detector; oracle = results equal to running alone + bit-identical fingerprint at every switch",
+        text="2..4 reader tasks share one config (references, splices, Env configs, resolver answers that parse into objects and lists and spawn lexer goroutines, empty containers, captured *Config fields) and each performs 1..3 reads with options of its own (a private resolver, so cross-talk between in-flight reads is visible): Unpack generic and typed, getters, Child, Has, CountField, GetFields, Path, FlattenedKeys, and using the shared config as a merge source directly / in a map / in a slice followed by writes into the private copy. Solo pass: every task alone - the shared config's complete internal state (reflective fingerprint) must be unchanged. Serialized pass (go1.26.8, synctest): the tape draws <= 4 preemption points (task, function-entry index) and every release; at every switch the fingerprint equals the initial one, at the end every result equals the solo result, no goroutine is left blocked. Free-running pass: the same workload, all tasks released together, 3 repetitions, binary built with -race and GORACE=halt_on_error; a race report kills the process and is attributed to the run.",
+        note="The interleaving of the free-running pass is not controlled (stated in the evidence); the serialized pass preempts at function granularity - a write and its undo between two function entries is left to the race detector. Determinism of the serialized pass is self-tested (30 processes, GOMAXPROCS 1/4/16)."),
     "C02": dict(engine="E2-varexp", design="6 (C02), 5 (E2)", cat="exploration",
         technique="deterministic simulation of the lookup environment: Env configs, resolver stack with per-read outages and empty answers, values drifting between reads, vs an expression model; expressions generated as trees",
         text="A root config with up to 7 settings (expressions generated as trees over literals, references, nested reference names, default/alternative/error operators and escapes; primitives; containers), 0..2 Env configs and 0..3 resolvers, with per-read resolver outages / empty answers and drift between reads (merge, remove, Env and store changes). Every read (String, typed getters, Child+Unpack, whole-root Unpack, Has, CountField, FlattenedKeys, CompareConfigs; on the root and through child configs) is compared with late-bound substitution in the order root > Env newest-first > resolvers newest-first; unresolvable references must be errors, never empty values.",
@@ -110,7 +114,6 @@ m = {
 claimed = set(CHECKS)
 PENDING = {
     "C07": "check under construction (monitors of all engines + E5 lexer schedules); not claimed until it is registered here",
-    "C11": "check under construction (engine E5); not claimed until it is registered here",
 }
 for p, r in sorted(PENDING.items()):
     if p not in claimed:
